@@ -1,5 +1,4 @@
-import IncrVerif.Proofs.Step
-import IncrVerif.Proofs.MemoH1
+import IncrVerif.Proofs.StepStamp
 /-!
 # C06, combined fragment, part 5: THE STAMP FRAME — `recomputeOne env fuel n` writes `recomputedAt` on `n` only, except on nodes it invalidates
 
